@@ -302,6 +302,11 @@ func c18OwnPseudo(r *rand.Rand) string {
 
 func runC18(c *mon.Ctx) {
 	r := c.Rng
+	// The process's local time zone is part of the configuration the property quantifies over ("times ...
+	// in any zone"; what is recovered is UTC whatever the surroundings): each batch runs under another one.
+	zones := []*time.Location{time.UTC, time.FixedZone("east", 5*3600+1800), time.FixedZone("west", -9*3600), time.FixedZone("far-east", 14*3600), time.FixedZone("odd", -(3*3600 + 1234))}
+	time.Local = zones[c.Batch%len(zones)]
+	c.Class("local-zone:" + time.Local.String())
 	nGen := c.Share(c.Scale(200_000, 10_000_000))
 	nNeg := c.Share(c.Scale(60_000, 2_000_000))
 	nMut := c.Share(c.Scale(80_000, 3_000_000))
